@@ -28,3 +28,5 @@ INVARIANT LawOffIsIdentity
 INVARIANT LawMissing
 INVARIANT LawJudgeSensitive
 INVARIANT LawMissingSensitive
+INVARIANT LawRoundsToOneIsIdentity
+INVARIANT LawSameRoundingSameResult
